@@ -265,3 +265,14 @@ pub fn abi_hub(h: &RHub) -> Vec<u8> {
 pub fn hex(b: &[u8]) -> String {
     ::hex::encode(b)
 }
+
+/// Byte offset of the inner message inside a hub-wrapper encoding (third head word = offset of
+/// `bytes message`, whose data follows its length word).
+pub fn inner_offset(p: &[u8]) -> usize {
+    u64::from_be_bytes(p[88..96].try_into().unwrap()) as usize + 32
+}
+/// Replace the `word`-th 32-byte word of the inner message.
+pub fn patch_inner_word(p: &mut [u8], word: usize, w: &[u8; 32]) {
+    let o = inner_offset(p) + 32 * word;
+    p[o..o + 32].copy_from_slice(w);
+}
